@@ -232,14 +232,20 @@ fn tokens_sweep(name: &str, alpha: Vec<K>, min: usize, max: usize) -> Sweep {
 
 // Sentences with every single-token deletion, insertion and substitution.
 fn edits_sweep(max_len: usize) -> Sweep {
-    let g = Grammar::load().restrict(&c07::class_alphabet(), &[]);
-    let sentences = Rc::new(RefCell::new(Sentences::new(g.clone(), 1, max_len)));
+    edits_sweep_over("class alphabet", Grammar::load().restrict(&c07::class_alphabet(), &[]), 1, max_len)
+}
+
+// The same over a sub-grammar slice, which reaches longer sentences (binders with compound
+// annotations, definition groups, conditionals): an edit inside a nested construct leaves the parser
+// with a recovered error deep in an otherwise complete tree.
+fn edits_sweep_over(what: &str, g: Grammar, min_len: usize, max_len: usize) -> Sweep {
+    let sentences = Rc::new(RefCell::new(Sentences::new(g.clone(), min_len, max_len)));
     let total = sentences.borrow().total;
     let s2 = sentences.clone();
     let g2 = g.clone();
     let kinds = alphabet29();
     Sweep::new(
-        &format!("sentences <= {max_len} tokens (class alphabet) with single-token edits"),
+        &format!("sentences of {min_len}..{max_len} tokens ({what}) with single-token edits"),
         total,
         move |idx| {
             let tree = sentences.borrow_mut().tree(idx);
@@ -400,19 +406,31 @@ impl Prop for C14 {
         "C14"
     }
     fn sweeps(&self, tier: Tier) -> Vec<Sweep> {
-        vec![
+        let mut v = vec![
             strings_sweep("strings over Σlex through tokenize+parse", c09::sigma_lex(), 0, tier.pick(3, 4)),
             strings_sweep("strings over Σlex-core through tokenize+parse", c09::sigma_lex_core(), 4, tier.pick(4, 5)),
+            strings_sweep("strings over Σcluster through tokenize+parse", c09::sigma_cluster(), 1, tier.pick(4, 5)),
             tokens_sweep("token sequences over 29 symbols", alphabet29(), 0, tier.pick(4, 5)),
             tokens_sweep("token sequences over the class alphabet + line break", alphabet_reduced(), tier.pick(5, 6), tier.pick(5, 6)),
             edits_sweep(tier.pick(5, 7)),
-            cli_sweep(tier),
-        ]
+        ];
+        let g = Grammar::load();
+        for (name, sg) in c07::slices(&g) {
+            let (lo, hi) = match name {
+                "binders" | "let-groups" | "let-in-binder-domain" => (6, tier.pick(9, 11)),
+                "if-let" => (6, tier.pick(9, 10)),
+                "mixed-arithmetic" | "applications" => (6, tier.pick(7, 8)),
+                _ => continue,
+            };
+            v.push(edits_sweep_over(&format!("slice {name}"), sg, lo, hi));
+        }
+        v.push(cli_sweep(tier));
+        v
     }
     fn evidence(&self, tier: Tier) -> EvidenceSpec {
         EvidenceSpec {
             level: "exploration",
-            rule: "in-process, in isolated workers with a 16 MiB stack: every string up to the C09 bounds through tokenize+parse (and type_check when they parse); every token sequence up to length 4/5 over all 29 token symbols (28 kinds + line-break terminator, so also streams tokenize never emits) and of length 5/6 over a 21-symbol class alphabet through parse; every sentence of grammar.y up to 5/7 tokens (class alphabet) with every single-token deletion, substitution (29 kinds) and insertion (29 kinds at every position). Each stage must return Ok or a non-empty error list, never panic, never abort, never exceed the watchdog. Process level: the real `gram check` binary on every byte string of length <= 1, every pair over a byte class alphabet (quick) / all 65536 pairs (thorough), the examples and single-byte invalid-UTF-8 mutations of them, an empty file, a missing file and a directory: exit 0 with output and no stderr, or exit 1 with no output and an [Error] diagnostic; and the verdict must agree with the in-process pipeline. non-trivial = inputs that reach name resolution or beyond, and launches that satisfied the contract".to_owned(),
+            rule: "in-process, in isolated workers with a 16 MiB stack: every string up to the C09 bounds through tokenize+parse (and type_check when they parse); every token sequence up to length 4/5 over all 29 token symbols (28 kinds + line-break terminator, so also streams tokenize never emits) and of length 5/6 over a 21-symbol class alphabet through parse; every sentence of grammar.y up to 5/7 tokens (class alphabet) with every single-token deletion, substitution (29 kinds) and insertion (29 kinds at every position), and the same edits of every sentence of six sub-grammar slices (binders, definition groups, groups in binder domains to 9/11 tokens, conditionals with groups to 9/10, arithmetic and applications to 7/8), where an edit leaves a recovered error deep inside an otherwise complete tree. Each stage must return Ok or a non-empty error list, never panic, never abort, never exceed the watchdog. Process level: the real `gram check` binary on every byte string of length <= 1, every pair over a byte class alphabet (quick) / all 65536 pairs (thorough), the examples and single-byte invalid-UTF-8 mutations of them, an empty file, a missing file and a directory: exit 0 with output and no stderr, or exit 1 with no output and an [Error] diagnostic; and the verdict must agree with the in-process pipeline. non-trivial = inputs that reach name resolution or beyond, and launches that satisfied the contract".to_owned(),
             assumptions: vec![
                 "token sequences that parse are also type checked in-process unless the reference finds a divergent piece in them (counted as skipped_divergent); an abnormal ending after that pre-screen is a violation".to_owned(),
                 "NO_COLOR=1 (as the repository's CI)".to_owned(),
